@@ -4,13 +4,13 @@
 EXTENDS Analysis
 Q(n, d) == Norm(n, d)
 B(lb, ub) == Lit("bounds", <<lb, ub>>, <<2>>)
-MC_Code == [x2 |-> <<120, 50>>, x10 |-> <<120, 49, 48>>, x1y |-> <<120, 49, 121>>, w |-> <<119>>, u |-> <<117>>, G |-> <<71>>]
+MC_Code == [x2 |-> <<120, 50>>, x10 |-> <<120, 49, 48>>, x1y |-> <<120, 49, 121>>, w |-> <<119>>, x3 |-> <<120, 51>>, G |-> <<71>>]
 MC_BaseCalls == <<
     Call("MkVar", 0, 0, "continuous", B(Q(0,1), NoneQ), 0, 0, 0, "x2"),
     Call("MkVar", 0, 0, "integer", B(NoneQ, Q(7,1)), 0, 0, 0, "x10"),
     Call("MkVar", 0, 0, "continuous", B(NoneQ, NoneQ), 0, 0, 0, "x1y"),
     Call("MkVec", 0, 0, "continuous", B(Q(0,1), Q(5,1)), 11, 0, 0, "w"),
-    Call("MkVec", 0, 0, "binary", B(NoneQ, NoneQ), 2, 0, 0, "u"),
+    Call("MkVec", 0, 0, "binary", B(NoneQ, NoneQ), 2, 0, 0, "x3"),
     Call("MkMat", 0, 0, "continuous", B(Q(-1,1), NoneQ), 3, 3, 1, "G"),
     Call("Slice", 4, 0, "", NoLit, NoneI, NoneI, -1, ""),
     Call("Slice", 4, 0, "", NoLit, 8, 11, NoneI, ""),
@@ -23,7 +23,7 @@ MC_BaseCalls == <<
     Call("MGet", 6, 0, "", NoLit, 0, 2, 1, ""),
     Call("MGet", 6, 0, "", NoLit, 0, 3, 1, "")
   >>
-MC_AllNames == {<<"x2">>, <<"x10">>, <<"x1y">>} \cup {<<"w", i>> : i \in 0..10} \cup {<<"u", 0>>, <<"u", 1>>}
+MC_AllNames == {<<"x2">>, <<"x10">>, <<"x1y">>} \cup {<<"w", i>> : i \in 0..10} \cup {<<"x3", 0>>, <<"x3", 1>>}
                \cup {<<"G", i, j>> : i \in 0..2, j \in 0..2}
 MC_En == {"Sum", "LinComb", "Dot", "Index", "MGet", "Diagonal", "Transpose", "CmpLit", "Cmp", "Problem",
           "SBin", "VBinLit", "Frobenius"}
@@ -38,6 +38,9 @@ MC_VOps == {"*"}
 MC_Senses == {"<=", "=="}
 MC_ObjCands == {}
 MC_Stages == <<>>
+\* thorough tier: two expression-building calls, a comparison, the problem
+MC_ExprCalls == {"Sum", "LinComb", "Dot", "Index", "MGet", "Diagonal", "Transpose", "SBin", "VBinLit", "Frobenius"}
+MC_StagesDeep == << MC_ExprCalls, MC_ExprCalls, {"CmpLit", "Cmp"}, {"Problem"} >>
 MC_FinalEn == {"Problem"}
 MC_SingValues == {}
 MC_Want == {}
